@@ -2,7 +2,8 @@
   Spec.Bmc — a BYTE-LEVEL reference BMC, written from the command tables of
   IPMI v2.0 (chapters 20 Global, 22 Messaging, 23 LAN, 27 Watchdog, 28 Chassis, 29 Event,
   35 Sensor), PICMG 3.0 (chapter 3: FRU control, LED, fan - fan trays of both command-set revisions -, power,
-  port/E-Keying) and HPM.1 (status queries, Get Component Properties).  It does NOT use the library's message layouts: requests are parsed and
+  port/E-Keying), HPM.1 (status queries, Get Component Properties) and DCMI 1.5 (chapter 6: Get DCMI Capabilities Info,
+  Get Power Reading, Get DCMI Sensor Info).  It does NOT use the library's message layouts: requests are parsed and
   responses are formatted here with plain byte arithmetic, bit `k` of byte `x` being
   `x / 2^k % 2`.
 
@@ -268,6 +269,34 @@ structure Hpm where
   compDeferred : Map (List Nat) := {}
   deriving Repr, DecidableEq
 
+/-- Get Power Reading (DCMI 1.5 table 6-16): watts, 16 bits each; IPMI timestamp; statistics reporting period in
+milliseconds (32 bits each); power reading state (bit 6: power measurement active) -/
+structure PowerReading where
+  current : Nat := 0
+  minimum : Nat := 0
+  maximum : Nat := 0
+  average : Nat := 0
+  timestamp : Nat := 0
+  period : Nat := 0
+  state : Nat := 0x40
+  deriving Repr, DecidableEq
+
+/-- one parameter of Get DCMI Capabilities Info (DCMI 1.5 table 6-2): parameter revision + parameter data -/
+structure DcmiCap where
+  revision : Nat := 2
+  data : List Nat := []
+  deriving Repr, DecidableEq
+
+structure Dcmi where
+  /-- DCMI specification conformance (bytes 3, 4 of every Get DCMI Capabilities Info response) -/
+  confMajor : Nat := 1
+  confMinor : Nat := 5
+  caps : Map DcmiCap := {}             -- parameter selector
+  power : Map PowerReading := {}       -- mode*256 + mode attributes
+  /-- temperature sensors per entity id (40h inlet, 41h CPU, 42h baseboard): SDR record id of instance 1, 2, … -/
+  sensors : Map (List Nat) := {}
+  deriving Repr, DecidableEq
+
 structure BmcState where
   device : DeviceId := {}
   guid : List Nat := List.replicate 16 0
@@ -306,6 +335,7 @@ structure BmcState where
   pmGlobal : Nat := 0                     -- global status [3:0]
   pmHeartbeats : Nat := 0
   hpm : Hpm := {}
+  dcmi : Dcmi := {}
   deriving Repr, DecidableEq
 
 /-! ### defaults of never-written objects (a function of the address) -/
@@ -633,6 +663,24 @@ def find_component (descr : List Nat) (s : BmcState) : Option Nat :=
 
 /-! ### byte level: request parsing and response formatting -/
 
+/-! DCMI 1.5 -/
+def dfltDcmiCap (sel : Nat) : DcmiCap := { revision := 2, data := [sel % 256, (sel + 1) % 256, 0] }
+def dfltPowerReading (k : Nat) : PowerReading :=
+  { current := k % 1000 + 100, minimum := k % 100, maximum := k % 1000 + 200, average := k % 1000 + 50,
+    timestamp := 0x5f000000 + k % 65536, period := 1000 * (k % 60 + 1), state := 0x40 }
+def dfltDcmiSensors (e : Nat) : List Nat := [e % 4 * 256 + e % 256]
+def get_dcmi_capabilities (sel : Nat) (s : BmcState) : DcmiCap := s.dcmi.caps.getD sel (dfltDcmiCap sel)
+def get_power_reading (mode attrs : Nat) (s : BmcState) : PowerReading :=
+  s.dcmi.power.getD (mode * 256 + attrs) (dfltPowerReading (mode * 256 + attrs))
+/-- the SDR record ids of all instances of an entity; DCMI knows temperature sensors (type 01h) only -/
+def get_dcmi_sensors (ty entity : Nat) (s : BmcState) : List Nat :=
+  if ty = 1 then s.dcmi.sensors.getD entity (dfltDcmiSensors entity) else []
+/-- all DCMI temperature sensors: inlet (40h), CPU (41h), baseboard (42h), in this order - what
+`get_dcmi_sensor_record_ids()` denotes.  (That operation is a sequence of exchanges and therefore not a constructor of
+`Call`; its model is `Model.Api.api_get_dcmi_sensor_record_ids`, its theorems `read_get_dcmi_sensor_record_ids_*`.) -/
+def get_dcmi_sensor_record_ids (s : BmcState) : List Nat :=
+  get_dcmi_sensors 1 0x40 s ++ get_dcmi_sensors 1 0x41 s ++ get_dcmi_sensors 1 0x42 s
+
 structure Req where
   netfn : Nat
   lun : Nat
@@ -899,6 +947,31 @@ def handlePicmg (s : BmcState) (cmd : Nat) (data : List Nat) : BmcState × Optio
     if c ∈ [0x00, 0x04, 0x07, 0x08, 0x0a, 0x0b, 0x0c, 0x0f, 0x12, 0x14, 0x15, 0x16, 0x24, 0x25, 0x28,
             0x3b, 0x3c, 0x2e, 0x2f, 0x34, 0x36, 0x37] then (s, none, ccLength) else (s, none, ccInvalidCmd)
 
+/-! DCMI (group extension DCh) -/
+def le32 (v : Nat) : List Nat := [v % 256, v / 256 % 256, v / 65536 % 256, v / 16777216 % 256]
+def fmtPowerReading (p : PowerReading) : List Nat :=
+  le16 p.current ++ le16 p.minimum ++ le16 p.maximum ++ le16 p.average ++ le32 p.timestamp ++ le32 p.period ++ [p.state]
+/-- record ids on the wire: two bytes each, LS byte first -/
+def le16s : List Nat → List Nat
+  | [] => []
+  | v :: t => v % 256 :: v / 256 % 256 :: le16s t
+/-- the instances one Get DCMI Sensor Info response reports: a non-zero Entity Instance names that instance alone;
+00h asks for all of them, at most 8 per response, beginning at Entity Instance Start (00h, 01h: the first) -/
+def dcmiSensorPage (ids : List Nat) (inst start : Nat) : List Nat :=
+  if inst = 0 then (ids.drop (start - 1)).take 8 else (ids.drop (inst - 1)).take 1
+/-- total number of instances, number of record ids in this response, the record ids -/
+def fmtDcmiSensorInfo (ids : List Nat) (inst start : Nat) : List Nat :=
+  ids.length :: (dcmiSensorPage ids inst start).length :: le16s (dcmiSensorPage ids inst start)
+/-- `data` is the request after the group extension identifier, the reply what follows it -/
+def handleDcmi (s : BmcState) (cmd : Nat) (data : List Nat) : Option (List Nat) × Nat :=
+  match cmd, data with
+  | 0x01, [sel] =>
+    let c := get_dcmi_capabilities sel s
+    (some (s.dcmi.confMajor :: s.dcmi.confMinor :: c.revision :: c.data), 0)
+  | 0x02, [mode, attrs, _reserved] => (some (fmtPowerReading (get_power_reading mode attrs s)), 0)
+  | 0x07, [ty, entity, inst, start] => (some (fmtDcmiSensorInfo (get_dcmi_sensors ty entity s) inst start), 0)
+  | c, _ => if c ∈ [0x01, 0x02, 0x07] then (none, ccLength) else (none, ccInvalidCmd)
+
 def handle (s : BmcState) (r : Req) : BmcState × List Nat :=
   match r.netfn with
   | 0x00 => handleChassis s r
@@ -911,6 +984,10 @@ def handle (s : BmcState) (r : Req) : BmcState × List Nat :=
       match handlePicmg s r.cmd rest with
       | (s', some d, _) => (s', ccOk :: 0 :: d)
       | (s', none, cc) => (s', [cc])
+    | 0xdc :: rest =>
+      match handleDcmi s r.cmd rest with
+      | (some d, _) => (s, ccOk :: 0xdc :: d)
+      | (none, cc) => (s, [cc])
     | _ => fail s ccInvalidCmd
   | _ => fail s ccInvalidCmd
 
@@ -948,6 +1025,9 @@ inductive Result where
   | hpmCaps (ver comps : Nat)
   | rollback (status : Nat) (estimate : Option Nat)
   | text (chars : List Nat)          -- a string, one number per character
+  | dcmiCaps (major minor revision : Nat) (data : List Nat)
+  | powerReading (p : PowerReading)
+  | natList (l : List Nat)
   | error (cc : Nat)
   deriving Repr, DecidableEq
 
@@ -994,6 +1074,7 @@ inductive Call where
   | setSignalingClass (iface ch cls : Nat) | getSignalingClass (iface ch : Nat)
   | getUpgradeStatus | getTargetUpgradeCapabilities | querySelftestResults | queryRollbackStatus
   | getComponentDescription (id : Nat)   -- get_component_property(id, PROPERTY_DESCRIPTION_STRING).description
+  | getDcmiCapabilities (sel : Nat) | getPowerReading (mode attrs : Nat)
   deriving Repr, DecidableEq
 
 /-- user id 0 is reserved: a conforming BMC rejects it with CCh -/
@@ -1094,6 +1175,9 @@ def run (c : Call) (s : BmcState) : BmcState × Result :=
   | .getComponentDescription id =>
     -- HPM.1 Get Component Properties, selector 2: exactly the characters the IPMC holds (a backslash is a character)
     (s, if has_component id s then .text (get_component_description id s) else .error ccHpmInvalidComponent)
+  | .getDcmiCapabilities sel =>
+    (s, let c := get_dcmi_capabilities sel s; .dcmiCaps s.dcmi.confMajor s.dcmi.confMinor c.revision c.data)
+  | .getPowerReading mode attrs => (s, .powerReading (get_power_reading mode attrs s))
 
 /-- a read leaves the BMC untouched -/
 def Call.isRead : Call → Bool
@@ -1103,7 +1187,7 @@ def Call.isRead : Call → Bool
   | .getPicmgProperties | .getPowerLevel .. | .getFanSpeedProperties _ | .getFanLevel _ | .getLedState ..
   | .getPortState .. | .getPmGlobalStatus | .getPowerChannelStatus _ | .getSignalingClass ..
   | .getUpgradeStatus | .getTargetUpgradeCapabilities | .querySelftestResults | .queryRollbackStatus
-  | .getComponentDescription _ => true
+  | .getComponentDescription _ | .getDcmiCapabilities _ | .getPowerReading .. => true
   | _ => false
 
 end PyIpmi.Spec.Bmc
